@@ -6,13 +6,13 @@
    Universe parameters (any values): N bound for the Predecessors enumeration and the
    IndexAll fuel, [mf] IsManifest, [succs] content.Successors, [subj] manifestutil.Subject,
    [sk] "Subject fetches this media type", [dflt] "media type is application/octet-stream".
-   The model instance is the repaired GC ([true true] = fixF2 fixA); the code as found is
-   the [false]/[false] instance, refuted below.
+   The model instance is the repaired code ([true true true] = fixF2 fixA fixF1); the code
+   as found is refuted below ([false] instances).
    Histories carry, with every operation, the iteration orders of the Go maps it ranges
    over ([orders]); the theorems hold for all of them. *)
 From Coq Require Import List.
 Import ListNotations.
-From Oras Require Import Model.OciIndex Proofs.OciIndex.
+From Oras Require Import Model.OciIndex Proofs.OciIndex Model.TarFS Proofs.TarFS.
 
 (* AutoSaveIndex on: after EVERY history of Push/Tag/Untag/Delete/GC/SaveIndex/read-write
    reopen (any AutoGC setting, any map orders), the store reopened from the directory
@@ -24,8 +24,8 @@ Theorem C08_reopen_equiv_autosave :
          (sk dflt : nat -> bool),
     (forall k, mf k = false -> succs k = []) ->
     forall (T : nat) (cfg : config) (h : list (op * orders)),
-      autosave cfg = true -> wf_history h ->
-      let s := run N mf succs subj sk true true cfg h store_empty in
+      autosave cfg = true -> wf_history mf h ->
+      let s := run N mf succs subj sk true true true cfg h store_empty in
       obs_equiv N succs dflt T (reopen N mf succs s) s /\ disk_valid s = true.
 Proof. exact reopen_equiv_autosave. Qed.
 Print Assumptions C08_reopen_equiv_autosave.
@@ -36,8 +36,8 @@ Theorem C08_reopen_equiv_saveindex :
          (sk dflt : nat -> bool),
     (forall k, mf k = false -> succs k = []) ->
     forall (T : nat) (cfg : config) (h : list (op * orders)) (o : orders),
-      wf_history h -> no_reopen h ->
-      let s := run N mf succs subj sk true true cfg (h ++ [(OSave, o)]) store_empty in
+      wf_history mf h -> no_reopen h ->
+      let s := run N mf succs subj sk true true true cfg (h ++ [(OSave, o)]) store_empty in
       obs_equiv N succs dflt T (reopen N mf succs s) s /\ disk_valid s = true.
 Proof. exact reopen_equiv_saveindex. Qed.
 Print Assumptions C08_reopen_equiv_saveindex.
@@ -49,8 +49,8 @@ Theorem C08_reopen_equiv_saveindex_reopen :
          (sk dflt : nat -> bool),
     (forall k, mf k = false -> succs k = []) ->
     forall (T : nat) (cfg : config) (h : list (op * orders)) (o : orders),
-      wf_history h -> reopen_after_save true h ->
-      let s := run N mf succs subj sk true true cfg (h ++ [(OSave, o)]) store_empty in
+      wf_history mf h -> reopen_after_save true h ->
+      let s := run N mf succs subj sk true true true cfg (h ++ [(OSave, o)]) store_empty in
       obs_equiv N succs dflt T (reopen N mf succs s) s /\ disk_valid s = true.
 Proof. exact reopen_equiv_saveindex_general. Qed.
 Print Assumptions C08_reopen_equiv_saveindex_reopen.
@@ -61,8 +61,8 @@ Print Assumptions C08_reopen_equiv_saveindex_reopen.
 Theorem C08_store_invariant :
   forall (N : nat) (mf : nat -> bool) (succs : nat -> list nat) (subj : nat -> option nat)
          (sk : nat -> bool) (cfg : config) (h : list (op * orders)),
-    wf_history h -> (autosave cfg = true \/ no_reopen h) ->
-    let s := run N mf succs subj sk true true cfg h store_empty in
+    wf_history mf h -> (autosave cfg = true \/ no_reopen h) ->
+    let s := run N mf succs subj sk true true true cfg h store_empty in
     (forall k, mf k = true -> In k (blobs s) -> lookup (RDig k) (r_index (res s)) <> None /\ In k (gr s)) /\
     (forall k, mf k = true -> In k (gr s) -> In k (blobs s)) /\
     (forall r d, lookup r (r_index (res s)) = Some d -> In (d_node d) (blobs s)).
@@ -80,8 +80,8 @@ Print Assumptions C08_save_is_projection.
 Theorem C08_reopen_equiv_refuted_gc :
   exists (N : nat) (mf : nat -> bool) (succs : nat -> list nat) (subj : nat -> option nat)
          (sk dflt : nat -> bool) (cfg : config) (h : list (op * orders)),
-    autosave cfg = true /\ wf_history h /\
-    let s := run N mf succs subj sk false true cfg h store_empty in
+    autosave cfg = true /\ wf_history mf h /\
+    let s := run N mf succs subj sk false true true cfg h store_empty in
     obs_resolve_dig dflt (reopen N mf succs s) 0 <> obs_resolve_dig dflt s 0 /\ disk_valid s = false.
 Proof. exact refuted_gc_not_saved. Qed.
 Print Assumptions C08_reopen_equiv_refuted_gc.
@@ -90,16 +90,45 @@ Print Assumptions C08_reopen_equiv_refuted_gc.
 Theorem C08_reopen_equiv_refuted_gc_digest_ref :
   exists (N : nat) (mf : nat -> bool) (succs : nat -> list nat) (subj : nat -> option nat)
          (sk dflt : nat -> bool) (cfg : config) (h : list (op * orders)),
-    autosave cfg = true /\ wf_history h /\ (forall k, mf k = false -> succs k = []) /\
-    let s := run N mf succs subj sk true false cfg h store_empty in
+    autosave cfg = true /\ wf_history mf h /\ (forall k, mf k = false -> succs k = []) /\
+    let s := run N mf succs subj sk true false true cfg h store_empty in
     obs_preds N succs (reopen N mf succs s) 0 <> obs_preds N succs s 0.
 Proof. exact refuted_gc_drops_digest_ref. Qed.
 Print Assumptions C08_reopen_equiv_refuted_gc_digest_ref.
 
+(* The referrer pass of gcIndex as found (F1, owned by C09) never returns on an untagged
+   manifest whose subject is not in the rebuilt graph; the repaired pass collects it. *)
+Theorem C08_gc_hang_prefix :
+  let mf := fun k => Nat.eqb k 1 in
+  let succs := fun k : nat => if Nat.eqb k 1 then [0] else [] in
+  let subj := fun k : nat => if Nat.eqb k 1 then Some 0 else None in
+  let s1 := run 2 mf succs subj mf true true false ex_cfg (ex_plain_hist [OPush 1]) store_empty in
+  snd (step 2 mf succs subj mf true true false ex_cfg s1 (OGC, ord0)) = RHang /\
+  let r := step 2 mf succs subj mf true true true ex_cfg s1 (OGC, ord0) in
+  snd r = ROk /\ obs_exists (fst r) 1 = false.
+Proof. exact prefix_gc_hangs. Qed.
+Print Assumptions C08_gc_hang_prefix.
+
+(* NewFromTar reads through internal/fs/tarfs, NewFromFS(os.DirFS) through the directory:
+   for an archive of the directory (any mix of "./"-style / unclean names, directory and
+   link entries, stale earlier copies: the last entry of a cleaned name is the file) both
+   open every file of the directory and every name that is in neither alike; this is
+   why the model has one [reopen] (loadIndex over an fs.FS) for the three ways. *)
+Theorem C08_tar_view :
+  forall (clean : nat -> nat) (tar : list tentry) (d : dirfs),
+    archives clean tar d ->
+    forall p,
+      (dlookup p d <> None \/ (forall e, In e tar -> clean (te_raw e) <> p) ->
+       tar_open clean tar p = dir_open d p) /\
+      (dlookup p d = None -> (exists e, In e tar /\ clean (te_raw e) = p) ->
+       tar_open clean tar p = FUnsupported).
+Proof. exact tar_view. Qed.
+Print Assumptions C08_tar_view.
+
 (* why tag names must not be digest strings of other nodes *)
 Theorem C08_inconsistent_reference_example :
-  exists h, ~ wf_history h /\
-    let s := run 2 (fun _ => true) (fun _ => []) (fun _ => None) (fun _ => true) true true ex_cfg h store_empty in
+  exists h, ~ wf_history (fun _ => true) h /\
+    let s := run 2 (fun _ => true) (fun _ => []) (fun _ => None) (fun _ => true) true true true ex_cfg h store_empty in
     obs_resolve_dig (fun _ => false) (reopen 2 (fun _ => true) (fun _ => []) s) 1 <> obs_resolve_dig (fun _ => false) s 1.
 Proof. exact inconsistent_reference_example. Qed.
 Print Assumptions C08_inconsistent_reference_example.
@@ -107,8 +136,8 @@ Print Assumptions C08_inconsistent_reference_example.
 (* the hypotheses are satisfiable: a concrete history with re-tags, annotations, a tagged
    blob, Untag, GC, Delete, read-write reopen and non-trivial map orders *)
 Example C08_hypotheses_satisfiable :
-  wf_history ex_hist /\ (forall k, ex_mf k = false -> ex_succs k = []) /\
-  let s := run 3 ex_mf ex_succs (fun _ => None) (fun _ => true) true true ex_cfg ex_hist store_empty in
+  wf_history ex_mf ex_hist /\ (forall k, ex_mf k = false -> ex_succs k = []) /\
+  let s := run 3 ex_mf ex_succs (fun _ => None) (fun _ => true) true true true ex_cfg ex_hist store_empty in
   obs_tags 3 s = [0] /\ obs_resolve_tag s 0 = Some (mkDesc 1 2 (Some (RTag 0))) /\
   obs_preds 3 ex_succs s 1 = [2] /\ obs_preds 3 ex_succs s 0 = [1] /\
   obs_preds 3 ex_succs (reopen 3 ex_mf ex_succs s) 0 = [1] /\ disk_valid s = true.
